@@ -55,10 +55,12 @@ let () =
            | ["P"] -> Some RPoll
            | ["R"; id; len; data] -> let d = unhex data in
              Some (RRx { r_id = zhex id; r_len = z_of_string len; r_buf = List.init 8 (fun i -> if i < List.length d then List.nth d i else zi 0) })
-           | ["H"; iv; off] -> Some (RSetHeartbeat (z_of_string iv, z_of_string off))
+           | ["H"; iv; off] -> Some (RSetHeartbeat (z_of_string iv, z_of_string off, zi (-1)))
+           | ["H"; iv; off; idev] -> Some (RSetHeartbeat (z_of_string iv, z_of_string off, z_of_string idev))
            | _ -> None) opstrs in
        let nonempty = List.map (fun s -> split s <> []) opstrs in
        let (r, evs) = rrun r0 (List.filter_map (fun x -> x) ops) in
+       if r.r_oob then print_string "oob" else begin
        let rec pr first ops ne evs = match ops, ne with
          | [], _ -> ()
          | o :: ro, b :: rb ->
@@ -86,7 +88,7 @@ let () =
          List.iteri (fun i s -> if not s.s_free then
                         Printf.printf "%d:%s:%s:%s:%d:%s:%d:%s:%s:%s:%s " i (string_of_z s.s_pgn) (string_of_z s.s_src) (string_of_z s.s_dst) (if s.s_tp then 1 else 0) (string_of_z s.s_len)
                           (List.length s.s_data) (string_of_z s.s_last) (string_of_z s.s_time) (string_of_z s.s_tpmax) (string_of_z s.s_tpreq)) r.r_slots;
-       print_string "]"
+       print_string "]" end
      | _ -> print_string "badcase");
     print_newline ()
   done with End_of_file -> ()
